@@ -158,6 +158,28 @@ func C09(c *core.Ctx) error {
 			pcs[pos]["exclude-subpkg-regex"] = []any{"sub("}
 			files[pk[pos]+"/sub/s.go"] = "package sub\n\ntype IS interface{ M() }\n"
 		})
+		// an invalid entry anywhere in the list, whatever the other entries match (the package itself, every
+		// sub-package, nothing) and even when no sub-package exists: the list is invalid as a whole
+		for _, form := range []struct {
+			name string
+			list []any
+			sub  bool
+		}{
+			{"after an entry that matches everything", []any{".*", "sub("}, true},
+			{"after an entry that matches the sub-package", []any{"/sub$", "(unclosed"}, true},
+			{"before a valid entry", []any{"[z-a]", "/sub$"}, true},
+			{"between valid entries that match nothing", []any{"nomatch1", "x{2,1}", "nomatch2"}, true},
+			{"on a recursive package without sub-packages", []any{"ok", "sub("}, false},
+		} {
+			form := form
+			add("invalid exclude-subpkg-regex entry "+form.name+at, true, func(root core.M, pcs, ics []core.M, files map[string]string, s *c09scn) {
+				pcs[pos]["recursive"] = true
+				pcs[pos]["exclude-subpkg-regex"] = form.list
+				if form.sub {
+					files[pk[pos]+"/sub/s.go"] = "package sub\n\ntype IS interface{ M() }\n"
+				}
+			})
+		}
 		add("unknown configuration key in a configs entry"+at, true, func(root core.M, pcs, ics []core.M, files map[string]string, s *c09scn) {
 			ics[pos]["configs"] = []any{core.M{"structname": "M0", "nonsense": true}}
 		})
